@@ -730,9 +730,23 @@ func (w *c47World) qKeysCursor(m *c47Model, rd [2]*c47Readers, prefix, cursor st
 
 // ---- query selection
 
-func (w *c47World) genPrefix(lbl string) string {
+func (w *c47World) genPrefix(m *c47Model, lbl string) string {
 	rt := w.rt
+	if keys := m.sortedKeys(); len(keys) > 0 && rapid.IntRange(0, 9).Draw(rt, lbl+"fromkey") < 6 {
+		// a prefix of a stored key: the app prefix (11 bytes) or a cut inside the name
+		k := c47PickFrom(rt, lbl+"pk", keys)
+		cut := 11
+		if len(k) < 11 {
+			cut = len(k)
+		} else if len(k) > 11 && rapid.Bool().Draw(rt, lbl+"incut") {
+			cut = rapid.IntRange(11, len(k)).Draw(rt, lbl+"cutk")
+		}
+		return k[:cut]
+	}
 	app := rapid.SampledFrom(c47Apps).Draw(rt, lbl+"app")
+	if rapid.Bool().Draw(rt, lbl+"busyapp") {
+		app = c47PickFrom(rt, lbl+"bapp", w.busy)
+	}
 	full := c47BoxKey(app, "")
 	switch rapid.IntRange(0, 9).Draw(rt, lbl+"P") {
 	case 0:
@@ -751,7 +765,7 @@ func (w *c47World) genPrefix(lbl string) string {
 
 func (w *c47World) genPrefixQueries(m *c47Model, rd [2]*c47Readers, lbl string) {
 	rt := w.rt
-	prefix := w.genPrefix(lbl)
+	prefix := w.genPrefix(m, lbl)
 	if c47StrangePrefix(prefix) {
 		w.vk.Excluded("precondition: empty / all-0xff prefix (rejected by the sqlite reader by design, never produced by callers)")
 		return
@@ -971,7 +985,7 @@ func (w *c47World) randomReads(m *c47Model, rd [2]*c47Readers, lbl string, n int
 			if len(keys) > 0 && rapid.Bool().Draw(rt, l("known")) {
 				w.qKeyValue(m, rd, c47PickFrom(rt, l("k"), keys))
 			} else {
-				w.qKeyValue(m, rd, c47GenKey(rt, l("k")))
+				w.qKeyValue(m, rd, c47GenKey(rt, l("k"), w.busy))
 			}
 		case 4, 5, 6:
 			w.genPrefixQueries(m, rd, l("p"))
